@@ -309,6 +309,7 @@ class World:
         self.monitors = monitors
         self.current = None
         self.seed = seed
+        self.capture_payloads = False
         self.refuse_mode = False     # True: connecting to a party that does not listen yet is refused (start() retries)
         self.seams = None
         if seed is not None:
@@ -353,6 +354,7 @@ class World:
         self.hist = [hashlib.blake2b(bytes([i]), digest_size=8).digest() for i in range(m)]
         self.events = []           # log of fired events (compact tuples)
         self.msglog = []           # (kind, party, peer, label, nbytes, site)
+        self.payloads = {}         # msglog index -> payload bytes (only when capture_payloads)
         self.tasklog = [[] for _ in range(m)]
         self.stdout = io.StringIO()
         self.write_after_close = []
@@ -396,6 +398,8 @@ class World:
                 def _send_message(self, peer_pid, data):
                     world.msglog.append(('send', i, peer_pid, self._program_counter[0], len(data),
                                          _site(u)))
+                    if world.capture_payloads:
+                        world.payloads[len(world.msglog) - 1] = bytes(data)
                     return osend(self, peer_pid, data)
 
                 def _receive_message(self, peer_pid):
